@@ -15,7 +15,7 @@ use std::time::Duration;
 
 pub static PROP: Prop = Prop {
     id: "C18",
-    rule: "cases: histories run in a fresh child process over 1-3 persistent threads: steps set_<kind>_descriptor([name,] marker) for the nine node kinds (unary, binary, postfix, ternary, function, reference, list, map, chain), names drawn from the operators, functions and references occurring in the case's ASTs and from names that do not, re-registrations with a new marker, the same spelling used for different kinds (`-` prefix and infix, `++`, a function and a reference both called foo); after EVERY step every AST of the case (1-3 programs from the flat generator, all nine node kinds, rendered fully parenthesised) is described on every thread. Oracle: a model registry (kind[, name]) -> marker; a marker descriptor renders <id:kind:name:child|child...> (one marker in seven renders as the empty string; every marker also reports a descriptor store that is locked while it runs); nodes without registration render with the default (literal = expr(), op+rhs, lhs+op+rhs, lhs+op, c?a:b, name(a,b), name, [a,b], {k:v}, statements joined by `;`); the model's string must equal describe() after every step on every thread. Plus the exhaustive single-registration table: 9 kinds x {a name that occurs, a name that does not} against an AST containing all nine kinds. Plus bursts of first-time registrations: 2-8 threads released by one barrier each register a descriptor for a fresh name of their own (hundreds of rounds); a program using all the names must then be described with every marker. Plus, per kind, a replacement race: a registered marker 1 is replaced by marker 2, 1, 2, ... (thousands of times; descriptors that own state whose Drop is instant or takes 30 us) while three threads describe the all-kinds AST: every node of that kind must be rendered by marker 1 or by marker 2 (the rendering is compared with the model's after mapping marker 2 to marker 1) - a registration exists at every moment, so the default rendering is a violation. Non-trivial: >= 2 registrations of different kinds of which one shares its name with a node of another kind, or a re-registration, or >= 2 threads with a registration after the first describe; distinct by (registered (kind, name-class) sequence, thread count, AST kind multiset).",
+    rule: "cases: histories run in a fresh child process over 1-3 persistent threads: steps set_<kind>_descriptor([name,] marker) for the nine node kinds (unary, binary, postfix, ternary, function, reference, list, map, chain), names drawn from the operators, functions and references occurring in the case's ASTs and from names that do not, re-registrations with a new marker, the same spelling used for different kinds (`-` prefix and infix, `++`, a function and a reference both called foo); a quarter of the histories make their first 1-n registrations before the engine is used for the first time in the process, a quarter of the ASTs use long names of one kind that differ in their last character only; after EVERY step every AST of the case (1-3 programs from the flat generator, all nine node kinds, rendered fully parenthesised) is described on every thread. Oracle: a model registry (kind[, name]) -> marker; a marker descriptor renders <id:kind:name:child|child...> (one marker in seven renders as the empty string; every marker also reports a descriptor store that is locked while it runs); nodes without registration render with the default (literal = expr(), op+rhs, lhs+op+rhs, lhs+op, c?a:b, name(a,b), name, [a,b], {k:v}, statements joined by `;`); the model's string must equal describe() after every step on every thread. Plus the exhaustive single-registration table: 9 kinds x {a name that occurs, a name that does not} against an AST containing all nine kinds. Plus bursts of first-time registrations: 2-8 threads released by one barrier each register a descriptor for a fresh name of their own (hundreds of rounds); a program using all the names must then be described with every marker. Plus, per kind, a replacement race: a registered marker 1 is replaced by marker 2, 1, 2, ... (thousands of times; descriptors that own state whose Drop is instant or takes 30 us) while three threads describe the all-kinds AST: every node of that kind must be rendered by marker 1 or by marker 2 (the rendering is compared with the model's after mapping marker 2 to marker 1) - a registration exists at every moment, so the default rendering is a violation. Non-trivial: >= 2 registrations of different kinds of which one shares its name with a node of another kind, or a re-registration, or >= 2 threads with a registration after the first describe; distinct by (registered (kind, name-class) sequence, thread count, AST kind multiset).",
     assumptions: &[
         "registrations go through the cfg-guarded re-export of DescriptorManager (the module is private)",
         "the AST is obtained from the fully parenthesised rendering, so grouping does not depend on C02",
@@ -345,12 +345,20 @@ pub fn worker() -> i32 {
             })
             .collect()
     };
-    let mut rounds = vec![describe_all(&txs, &rxs)];
-    for st in doc["steps"].as_array().cloned().unwrap_or_default() {
+    // the first `pre` registrations are made before the engine is used for the first time in this
+    // process (no parse, no describe yet); rounds[0] is then the state after them
+    let pre = doc["pre"].as_u64().unwrap_or(0) as usize;
+    let mut rounds = vec![];
+    if pre == 0 {
+        rounds.push(describe_all(&txs, &rxs));
+    }
+    for (i, st) in doc["steps"].as_array().cloned().unwrap_or_default().iter().enumerate() {
         let t = (st["thread"].as_u64().unwrap_or(0) as usize).min(nthreads - 1);
         txs[t].send(Some((st["kind"].as_str().unwrap_or("").to_string(), st["name"].as_str().unwrap_or("").to_string(), st["id"].as_u64().unwrap_or(0) as u32))).ok();
         let _ = rxs[t].recv_timeout(Duration::from_secs(20));
-        rounds.push(describe_all(&txs, &rxs));
+        if i + 1 >= pre {
+            rounds.push(describe_all(&txs, &rxs));
+        }
     }
     println!("{}", json!({"rounds": rounds}));
     0
@@ -416,8 +424,15 @@ fn collect_names(r: &R, out: &mut BTreeMap<&'static str, Vec<String>>) {
 }
 
 fn run_history(trees: &[R], steps: &[(String, String, u32, usize)], nthreads: usize, env: &Env, st: &mut Stats) -> CaseResult {
+    run_history_pre(trees, steps, nthreads, 0, env, st)
+}
+
+/// `pre`: the first `pre` steps are made before the engine's first use in the child process
+fn run_history_pre(trees: &[R], steps: &[(String, String, u32, usize)], nthreads: usize, pre: usize, env: &Env, st: &mut Stats) -> CaseResult {
+    let pre = pre.min(steps.len());
     let texts: Vec<String> = trees.iter().map(|t| t.render_explicit()).collect();
     let scenario = json!({
+        "pre": pre,
         "threads": nthreads,
         "asts": texts,
         "steps": steps.iter().map(|(k, n, id, t)| json!({"kind": k, "name": n, "id": id, "thread": t})).collect::<Vec<_>>(),
@@ -435,20 +450,26 @@ fn run_history(trees: &[R], steps: &[(String, String, u32, usize)], nthreads: us
             let (k, n, id, _) = &steps[round - 1];
             reg.insert((k.clone(), if named(k) { n.clone() } else { String::new() }), *id);
         }
+        if round < pre {
+            continue; // registered before the first use of the engine: nothing observed yet
+        }
+        let ri = round - pre;
         for t in 0..nthreads {
             for (ai, tree) in trees.iter().enumerate() {
                 st.eval();
                 let want = model_describe(tree, &reg);
-                let got = doc["rounds"][round][t][ai].as_str().unwrap_or("<missing>");
+                let got = doc["rounds"][ri][t][ai].as_str().unwrap_or("<missing>");
                 if got != want {
                     let last = if round > 0 { format!("{:?}", &steps[round - 1]) } else { "initial state".into() };
                     let sig = if got.starts_with("PANIC") {
                         "panic".to_string()
+                    } else if pre > 0 && ri == 0 {
+                        format!("registered-before-first-use:{}", steps[..pre].iter().map(|s| s.0.as_str()).collect::<Vec<_>>().join("+"))
                     } else if got.contains("!descriptor-store-locked") {
                         "lock-held:descriptor-store".to_string()
                     } else if round > 0 {
                         let (k, _, _, th) = &steps[round - 1];
-                        if *th != t && nthreads > 1 && doc["rounds"][round][*th][ai].as_str() == Some(want.as_str()) {
+                        if *th != t && nthreads > 1 && doc["rounds"][ri][*th][ai].as_str() == Some(want.as_str()) {
                             format!("stale-on-other-thread:{}", k)
                         } else {
                             format!("lookup:{}", k)
@@ -533,10 +554,18 @@ fn run_burst(threads: usize, env: &Env, st: &mut Stats) -> CaseResult {
     Ok(())
 }
 
-fn gen_tree(src: &mut Src, tab: &OpTable) -> R {
+/// names of one kind that are long, equally long and differ in their last character only
+const LONG_NAMES: [&str; 3] = ["customer_billing_address_line1", "customer_billing_address_line2", "customer_billing_address_line3"];
+const LONG_FUNCS: [&str; 2] = ["compute_regional_sales_tax_rate_a", "compute_regional_sales_tax_rate_b"];
+
+fn gen_tree(src: &mut Src, tab: &OpTable, long_names: bool) -> R {
     let mut cfg = SynCfg::new(tab);
     cfg.max_depth = 3;
     cfg.max_operands = 6;
+    if long_names {
+        cfg.extra_names = LONG_NAMES.iter().map(|s| s.to_string()).collect();
+        cfg.extra_funcs = LONG_FUNCS.iter().map(|s| s.to_string()).collect();
+    }
     let toks = gen_program(src, &cfg);
     parse_tokens(&toks, tab).map(|x| x.0).unwrap_or(R::Stmts(vec![]))
 }
@@ -546,10 +575,14 @@ fn case(src: &mut Src, st: &mut Stats, env: &Env) -> CaseResult {
     let nthreads = 1 + src.weighted(&[3, 2, 1]);
     let nsteps = 1 + src.pick(10);
     let ntrees = 1 + src.pick(3);
+    // a quarter of the histories make their first registrations before the engine is used at all
+    let pre = if src.pick(4) == 3 { 1 + src.pick(nsteps) } else { 0 };
+    // a quarter of the ASTs use long names that differ in their last character only
+    let long_names = src.pick(4) == 3;
     // the step choices are drawn before the trees: the tail of a choice vector may be exhausted
     let raw: Vec<[u32; 4]> = (0..nsteps).map(|_| [src.raw(), src.raw(), src.raw(), src.raw()]).collect();
     let pick = |r: u32, n: usize| ((r as u64 * n.max(1) as u64) >> 32) as usize;
-    let trees: Vec<R> = (0..ntrees).map(|_| gen_tree(src, &tab)).collect();
+    let trees: Vec<R> = (0..ntrees).map(|_| gen_tree(src, &tab, long_names)).collect();
     let mut names: BTreeMap<&'static str, Vec<String>> = BTreeMap::new();
     for t in &trees {
         collect_names(t, &mut names);
@@ -588,7 +621,13 @@ fn case(src: &mut Src, st: &mut Stats, env: &Env) -> CaseResult {
     }
     st.hist(&format!("threads:{}", nthreads));
     st.sample(|| json!({"asts": trees.iter().map(|t| t.render_explicit()).collect::<Vec<_>>(), "steps": steps.iter().map(|s| format!("{}[{}]@t{}", s.0, s.1, s.3)).collect::<Vec<_>>()}));
-    run_history(&trees, &steps, nthreads, env, st)
+    if pre > 0 {
+        st.hist("registrations-before-first-use");
+    }
+    if long_names {
+        st.hist("long-similar-names");
+    }
+    run_history_pre(&trees, &steps, nthreads, pre, env, st)
 }
 
 fn fixed(env: &Env, st: &mut Stats) -> CaseResult {
@@ -613,6 +652,8 @@ fn fixed(env: &Env, st: &mut Stats) -> CaseResult {
             st.nontrivial(&format!("table:{}:{}", kind, name));
             run_history(&[tree.clone(), empty.clone()], &[(kind.to_string(), name.to_string(), 8, 0)], 1, env, st)?;
             run_history(&[tree.clone(), empty.clone()], &[(kind.to_string(), name.to_string(), 14, 0)], 1, env, st)?;
+            // the same registration as the very first thing the process does
+            run_history_pre(&[tree.clone(), empty.clone()], &[(kind.to_string(), name.to_string(), 9, 0)], 1, 1, env, st)?;
         }
     }
     st.set_extra("exhaustive_single_registration_table", json!(true));
@@ -660,5 +701,5 @@ fn replay(case: &J, st: &mut Stats, env: &Env) -> CaseResult {
         .iter()
         .map(|s| (s["kind"].as_str().unwrap_or("").to_string(), s["name"].as_str().unwrap_or("").to_string(), s["id"].as_u64().unwrap_or(0) as u32, s["thread"].as_u64().unwrap_or(0) as usize))
         .collect();
-    run_history(&trees, &steps, case["threads"].as_u64().unwrap_or(1) as usize, env, st)
+    run_history_pre(&trees, &steps, case["threads"].as_u64().unwrap_or(1) as usize, case["pre"].as_u64().unwrap_or(0) as usize, env, st)
 }
